@@ -185,6 +185,26 @@ def run_case(case) -> dict:
                     f[f"C04:plaintext-differs:single-recipient"] = f"recipient {i} ({algs[i]}) decrypts different plaintext"
             except Exception as e:
                 f[f"C04:single-recipient-decrypt-raises:{exc_key(e)}"] = f"recipient {i} ({algs[i]}) cannot decrypt alone: {type(e).__name__}: {e}"
+    # compact: the key is resolved by a callable that itself opens another compact JWE before it answers
+    if plan["ser"] == "compact" and not f and case.get("kind") is None:
+        from joserfc import jwe
+        try:
+            keys = jp.jose_private_keys(plan, case["form"])
+            from gens.jose import jkey as _jkey
+            from gens import keys as _gk
+            from ref import keys as _rk
+            spub = _jkey(_rk.public_of(_gk.key_from_record(plan["sender"])), case["form"], False) if plan["sender"] else None
+            other = jp.jose_encrypt(dict(plan, plaintext_hex=b"the other message".hex()), "attached", case["form"])
+
+            def resolve(obj_):
+                if jwe.decrypt_compact(other, keys[0], algorithms=jp.ALL_NAMES, sender_key=spub).plaintext != b"the other message":
+                    raise AssertionError("nested decrypt wrong")
+                return keys[0]
+            o4 = jwe.decrypt_compact(tok, resolve, algorithms=jp.ALL_NAMES, sender_key=spub)
+            if o4.plaintext != pt:
+                f["C04:nested-resolver:plaintext-differs"] = f"decrypt_compact with a key resolver that opens another token returns {o4.plaintext[:40]!r}"
+        except Exception as e:
+            f[f"C04:nested-resolver-raises:{exc_key(e)}"] = f"decrypt_compact with a key resolver that opens another compact token: {type(e).__name__}: {e}"
     # open - amend - re-seal (JSON serializations): the returned object gets another protected member and is encrypted again
     if plan["ser"] != "compact" and plan["zip"] is None and not f:
         from joserfc import jwe
